@@ -198,6 +198,16 @@ func digitsShort(params rlwe.Parameters, levelQ, levelP, pw2 int) bool {
 	return false
 }
 
+// accCanOverflow: the 32-bit path sums, without any reduction, one product row·digit per base-two digit and per
+// half into a uint64; rows are < q and the digits go through NTTLazy, documented to return values in [0, 6q−2].
+// True when that worst case does not fit 64 bits.
+func accCanOverflow(params rlwe.Parameters, ct *rgsw.Ciphertext) bool {
+	q := new(big.Int).SetUint64(params.Q()[0])
+	w := new(big.Int).Mul(new(big.Int).Sub(q, big.NewInt(1)), new(big.Int).Sub(new(big.Int).Mul(q, big.NewInt(6)), big.NewInt(2)))
+	w.Mul(w, big.NewInt(int64(2*len(ct.Value[0].Value[0]))))
+	return w.BitLen() > 64
+}
+
 func path(params rlwe.Parameters, levelQ, levelP int) string {
 	switch {
 	case levelP >= 1:
@@ -359,7 +369,11 @@ func extProdScenarios(tier string) []engine.Scenario {
 			for np := 0; np <= 2; np++ {
 				for lq := 0; lq < len(sh.q); lq++ {
 					for lp := -1; lp < np; lp++ {
-						for _, pw2 := range []int{0, 7, 16} {
+						pw2s := []int{0, 7, 16}
+						if tier == "thorough" {
+							pw2s = []int{0, 1, 7, 11, 16}
+						}
+						for _, pw2 := range pw2s {
 							scs = append(scs, extProdScenario(epConfig{sh, np, lq, lp, pw2, true}))
 						}
 					}
